@@ -201,8 +201,13 @@ def make_sessions(ctx, nses):
                         seqs[-1 - tw], seqs2[-1 - tw] = seqs[tw][:-1], seqs[tw][-1] + seqs2[tw]
                 rows = [[a, b] for a, b in zip(seqs, seqs2)]
                 cols = dict(TRAV=["TRAV1-1*01"] * n, CDR3A=seqs, TRBV=["TRBV2*01"] * n, CDR3B=seqs2)
-                order = [["TRAV", "CDR3A", "TRBV", "CDR3B"], ["CDR3A", "CDR3B"], ["TRAV", "TRBV", "CDR3A", "CDR3B"], ["CDR3B", "CDR3A", "TRBV"]][(sid // 4) % 4]
+                form = (sid // 4) % 6
+                order = [["TRAV", "CDR3A", "TRBV", "CDR3B"], ["CDR3A", "CDR3B"], ["TRAV", "TRBV", "CDR3A", "CDR3B"], ["CDR3B", "CDR3A", "TRBV"]][form % 4]
                 data = pd.DataFrame({c_: cols[c_] for c_ in order}, index=[f"c{i}" for i in range(n)][::-1])
+                if form == 4:
+                    data = (list(seqs), list(seqs2))                     # the legacy (alpha chains, beta chains) pair
+                elif form == 5:
+                    data = (pd.Series(seqs, index=[f"c{i}" for i in range(n)]), pd.Series(seqs2, index=[f"c{i}" for i in range(n)]))
             else:
                 rows = [[a] for a in seqs]
                 data = [seqs, np.array(seqs, dtype=object), pd.Series(seqs, index=range(5, 5 + n), dtype=object)][sid % 3]
